@@ -215,6 +215,17 @@ static void mutate(cs::Src& s, std::string& t) {
 
 static void run_case(cs::Src& s, cs::Ctx& ctx) {
   ctx.evaluations++;
+  // raw mode: the input is a byte string (always under libFuzzer; 1 in 12 random cases)
+  if (s.below(12) == 1) {
+    static const int rl[] = {10, 0, 1, 2, 5, 255};
+    int limit = rl[s.below(6)];
+    std::string bytes = s.take_bytes(s.mode() == cs::Src::BYTES ? 400 : 24);
+    int code = check_input(ctx, bytes, limit, true);
+    ctx.label("raw-bytes");
+    ctx.label(std::string("code-") + jref::code_name(code));
+    if (bytes.size() >= 3) ctx.nontrivial_str(bytes + char(limit));
+    return;
+  }
   jref::Dialect d = build_dialect();
   gen::Opts o;
   o.utf8_only = !s.chance(1, 4);
